@@ -378,6 +378,10 @@ def loop_locals(ctx, P, iters):
     ctx.floor("local reads in the main loops", n, 10)
 
 
+def _partial_getattr(v):
+    return isinstance(v, ast.Call) and call_name(v) == "partial" and len(v.args) == 3 and not v.keywords and isinstance(v.args[0], ast.Name) and v.args[0].id == "getattr"
+
+
 def _returns_lambdas(view, call):
     """call is `self.helper(...)` of a newly extracted helper whose every return gives a lambda (the counter chosen by `method`)"""
     if not (isinstance(call, ast.Call) and isinstance(call.func, ast.Attribute) and unparse(call.func.value) == "self" and call.func.attr not in rules.ANCHOR_METHODS):
@@ -406,7 +410,7 @@ def loop_guards(ctx, P, iters):
         f = guards.norm(test, unparse)
         ob.ok(m, "%s: while %s" % (m, guards.show(f)))
         if m == "simulate_until_max_customers":
-            lam = set(unparse(x.targets[0]) for x in ast.walk(fn) if isinstance(x, ast.Assign) and (isinstance(x.value, ast.Lambda) or _returns_lambdas(sim, x.value)))
+            lam = set(unparse(x.targets[0]) for x in ast.walk(fn) if isinstance(x, ast.Assign) and (isinstance(x.value, ast.Lambda) or _returns_lambdas(sim, x.value) or _partial_getattr(x.value)))
             if len(lam) == 1:
                 want = ("lt", "%s()" % lam.pop(), "max_customers")
         if f != want:
@@ -444,7 +448,7 @@ def counter_table(ctx, P):
     got = {}
     raising_default = False
     for meth in list(want) + ["<other>"]:
-        w = Walker(P, sim, keep=lambda e: (e.kind == "assign" and e.d.get("local") and isinstance(e.d.get("value_node"), ast.Lambda)) or e.kind in ("raise", "iter", "loopexit")
+        w = Walker(P, sim, keep=lambda e: (e.kind == "assign" and e.d.get("local") and (isinstance(e.d.get("value_node"), ast.Lambda) or _partial_getattr(e.d.get("value_node")))) or e.kind in ("raise", "iter", "loopexit")
                    or (e.kind == "return" and isinstance(e.d.get("value_node"), ast.Lambda) and e.frame.func is not fn),
                    literal_args={"method": repr(meth)}, inline=rules.new_helper, loop_iters=(0,))
         for st in w.paths_of(cls, fn):
@@ -456,6 +460,12 @@ def counter_table(ctx, P):
             if meth == "<other>":
                 raising_default = False
                 break
+            if len(lam) == 1 and _partial_getattr(lam[0].d["value_node"]):
+                # partial(getattr, X, "name") is `lambda: X.name`: read on this path (X and the name may be locals set in the selected branch)
+                import re as _re
+                m_ = _re.fullmatch(r"partial\(getattr,\s*(.+),\s*['\"](\w+)['\"]\)", lam[0].d["value"])
+                got[meth] = "%s.%s" % (m_.group(1), m_.group(2)) if m_ else lam[0].d["value"]
+                continue
             got[meth] = unparse(rules.inline_locals(lam[0].frame.func, lam[0].d["value_node"].body)) if len(lam) == 1 else "%d counters selected" % len(lam)
     for k, v in want.items():
         ob.ok(k, "%s -> %s" % (k, got.get(k)))
